@@ -2,6 +2,7 @@
 From Coq Require Import Floats Permutation Sorted.
 From EF Require Import Model.Base Model.Code Model.Value Model.Env Model.Reflect Model.Builtins Model.Compiler Model.VM
                        Spec.Ops Proofs.OpsProofs Proofs.ContainerProofs.
+From EF Require Proofs.SameValueProofs.
 Open Scope N_scope.
 
 (* indexing an array: the element if 0 <= i < len, null for EVERY other integer *)
@@ -58,11 +59,45 @@ Theorem C16_key_types_distinct : forall o z f s hi hf hs,
   hk_eqb hi hf = false /\ hk_eqb hi hs = false /\ hk_eqb hf hs = false.
 Proof. exact ContainerProofs.key_types_distinct. Qed.
 
-(* `in` finds exactly the elements present (same type, same printed form) *)
+(* `in` finds exactly the elements present: the first element that is THE SAME VALUE - arrays and hashes
+   compared member by member, simple values by type and printed form (repair of D40) *)
 Theorem C16_in_exact : forall o x l b,
   array_mem o x l = Some b ->
-  (b = true <-> exists y, In y l /\ same_printed o x y = Some true).
+  (b = true <-> exists y, In y l /\ same_value o x y = Some true).
 Proof. exact ContainerProofs.in_exact. Qed.
+
+(* what "the same value" means: member by member for arrays ... *)
+Theorem C16_same_value_array : forall o l l',
+  same_value o (VArray l) (VArray l') = Some true <-> Forall2 (fun x y => same_value o x y = Some true) l l'.
+Proof. exact SameValueProofs.same_value_array. Qed.
+
+(* ... key by key for hashes *)
+Theorem C16_same_value_hash : forall o ps ps',
+  same_value o (VHash ps) (VHash ps') = Some true <->
+  lenN ps = lenN ps' /\
+  Forall (fun kx => exists hk y, hash_key o (fst kx) = Some (Some hk) /\ hash_get o ps' hk = Some (Some y) /\
+                                 same_value o (snd kx) y = Some true) ps.
+Proof. exact SameValueProofs.same_value_hash. Qed.
+
+(* ... and for values built from integers, strings, booleans, null and arrays of these it is EQUALITY, decided
+   without any oracle: `x in l` is true exactly when x is an element of l (the elements being values of a
+   script: no machine-internal iterator among them) *)
+Theorem C16_in_plain_exact : forall o x l b, SameValueProofs.plain x = true -> forallb SameValueProofs.no_iter l = true ->
+  array_mem o x l = Some b -> (b = true <-> In x l).
+Proof. exact SameValueProofs.in_plain_exact. Qed.
+
+Theorem C16_same_value_plain_total : forall o a b, SameValueProofs.plain a = true -> SameValueProofs.plain b = true ->
+  exists r, same_value o a b = Some r.
+Proof. exact SameValueProofs.same_value_plain_total. Qed.
+
+(* D40, as it was: printed forms conflate a string with the value it spells (`[1, 2] in [["1, 2"]]` was true);
+   the structural comparison does not *)
+Theorem C16_d40_witness : forall o,
+  same_printed o (VArray [VInt 1; VInt 2]) (VArray [VStr (L "1, 2")]) = Some true /\
+  same_value o (VArray [VInt 1; VInt 2]) (VArray [VStr (L "1, 2")]) = Some false /\
+  array_mem o (VArray [VInt 1; VInt 2]) [VArray [VStr (L "1, 2")]] = Some false /\
+  array_mem o (VArray [VInt 1; VInt 2]) [VArray [VStr (L "1, 2")]; VArray [VInt 1; VInt 2]] = Some true.
+Proof. exact SameValueProofs.d40_witness. Qed.
 
 (* iteration visits position 0, 1, 2 ... each exactly once and then stops *)
 Theorem C16_iter_array : forall o (l : list value) (off : N),
